@@ -47,10 +47,6 @@ def main():
         return p.returncode
     finally:
         shutil.rmtree(tmp, ignore_errors=True)
-        for f in os.listdir(os.path.join(ROOT, ".build")):
-            if ".mut" in f:
-                try: os.remove(os.path.join(ROOT, ".build", f))
-                except OSError: pass
 
 if __name__ == "__main__":
     sys.exit(main())
